@@ -189,6 +189,20 @@ CHECKS = {
         note='The tokenizer/parser itself is not yet modelled (no Lexer.tla): accept/reject predictions exist only for the alias resolver; '
              'Unicode abstracted by classes; nesting depth tiny compared to the recursion budget.',
         technique='TLA+ resolver state machine with liveness checked by TLC; TLC-enumerated class strings and custom maps replayed into compile(); outcome-class oracle'),
+    'C20': dict(
+        category='model_checking',
+        text='ErrCtx.tla is the reading of the property (line breaks incl. CR LF as one, line, column, context with caret); seven theorems '
+             '(range, recoverability of the offset, monotonicity, partition, end of input on the last line, format <=> property reading) are '
+             'TLC invariants; TLC enumerates every pattern over {x, LF, CR} up to length 6-8 x every offset 0..len and each pair is replayed into '
+             'SelectorSyntaxError / get_pattern_context; SelectorSyntaxErrors recorded from the real parser on line-break-respelled, truncated or '
+             'corrupted selectors are validated by TLC (Trace_C20). Pretty.tla models the pretty-printer token loop; TLC proves NoStuck / Terminates '
+             '(liveness) / StepAdvances on a bounded repr grammar for the repaired token rules and must refute them for the as-is rules (three '
+             'negative configurations); the real pretty() runs on ~280 compiled selectors under a deterministic line-event budget and must equal '
+             'repr modulo whitespace; DEBUG is checked differentially on ~200 selectors x 3 documents and every recorded error.',
+        design_ref='§6 C20',
+        note='Patterns <= 6-8 over a 3-symbol alphabet, e2e patterns <= ~60 characters; offsets on the LF of a CR LF pair and the literal '
+             'context format are drift only; non-termination is a settrace budget (300-2000 x len line events), not a proof about the Python loop.',
+        technique='TLA+ error-context definition + loop model with liveness and negative configurations; TLC enumeration replayed into the code; TLC trace validation of recorded diagnostics'),
 }
 
 PENDING = {}
